@@ -59,10 +59,10 @@ package time
 //@ spec dg(s string, k int) int = int(s[k]) - 48
 //@ spec n2(s string, k int) int = dg(s, k) * 10 + dg(s, k+1)
 //@ spec n4(s string, k int) int = dg(s, k) * 1000 + dg(s, k+1) * 100 + dg(s, k+2) * 10 + dg(s, k+3)
-//@ spec dateOK(s string) bool = isd(s,0) && isd(s,1) && isd(s,2) && isd(s,3) && s[4] == 45 && isd(s,5) && isd(s,6) && s[7] == 45 && isd(s,8) && isd(s,9)
-//@ spec clockOK(s string) bool = s[10] == 84 && isd(s,11) && isd(s,12) && s[13] == 58 && isd(s,14) && isd(s,15) && s[16] == 58 && isd(s,17) && isd(s,18)
+//@ spec dateOK(s string) bool = isd(s,0) && isd(s,1) && isd(s,2) && isd(s,3) && s[4] == 45 && isd(s,5) && isd(s,6) && s[7] == 45 && isd(s,8) && isd(s,9) && 1 <= n2(s,5) && n2(s,5) <= 12 && 1 <= n2(s,8) && n2(s,8) <= 31
+//@ spec clockOK(s string) bool = s[10] == 84 && isd(s,11) && isd(s,12) && s[13] == 58 && isd(s,14) && isd(s,15) && s[16] == 58 && isd(s,17) && isd(s,18) && n2(s,11) <= 23 && n2(s,14) <= 59 && n2(s,17) <= 59
 // zone designator starting at z: "Z" to the end, or sign hh ":" mm to the end
-//@ spec zoneOK(s string, z int) bool = (s[z] == 90 && len(s) == z + 1) || ((s[z] == 43 || s[z] == 45) && len(s) == z + 6 && isd(s,z+1) && isd(s,z+2) && s[z+3] == 58 && isd(s,z+4) && isd(s,z+5))
+//@ spec zoneOK(s string, z int) bool = (s[z] == 90 && len(s) == z + 1) || ((s[z] == 43 || s[z] == 45) && len(s) == z + 6 && isd(s,z+1) && isd(s,z+2) && s[z+3] == 58 && isd(s,z+4) && isd(s,z+5) && n2(s,z+1) <= 23 && n2(s,z+4) <= 59)
 //@ spec zoneOff(s string, z int) int = s[z] == 90 ? 0 : s[z] == 43 ? (n2(s,z+1) * 60) * 60 + n2(s,z+4) * 60 : -((n2(s,z+1) * 60) * 60 + n2(s,z+4) * 60)
 // nanoseconds denoted by the fraction digits s[f..e): the first nine digits, scaled; further digits are truncated
 //@ spec frac9(s string, f int, e int) int = min9(e - f) == 0 ? dv(s, f, 0) * 1000000000 : min9(e - f) == 1 ? dv(s, f, 1) * 100000000 : min9(e - f) == 2 ? dv(s, f, 2) * 10000000 : min9(e - f) == 3 ? dv(s, f, 3) * 1000000 : min9(e - f) == 4 ? dv(s, f, 4) * 100000 : min9(e - f) == 5 ? dv(s, f, 5) * 10000 : min9(e - f) == 6 ? dv(s, f, 6) * 1000 : min9(e - f) == 7 ? dv(s, f, 7) * 100 : min9(e - f) == 8 ? dv(s, f, 8) * 10 : dv(s, f, 9)
